@@ -247,11 +247,16 @@ func (s *Server) loop() {
 			st = Step{Kind: "reset", N: 0}
 		}
 		s.mu.Lock()
+		if s.closed { // accepted while Close was running: nobody would reset it (the agent may never close a connection it opened during its stop)
+			s.mu.Unlock()
+			rst(conn)
+			return
+		}
 		s.nConn++
 		k := s.nConn
 		s.conns[conn] = true
-		s.mu.Unlock()
 		s.wg.Add(1)
+		s.mu.Unlock()
 		go s.serve(conn, k, st)
 	}
 }
